@@ -253,6 +253,13 @@ def check(case, rec=None):
         ok, xyz_c = guard(ct.sf2xyz, sc, fc)
         if ok:
             c.xyz("Ctransform.sf2xyz", xyz_c)
+            # an array handed out by one call is the caller's: later calls on the same object leave it alone
+            kept = np.array(xyz_c, copy=True)
+            ok2, other = guard(ct.sf2xyz, np.asarray(fc, float)[::-1].copy() * 0.5 + 3.0, np.asarray(sc, float) * 0.25)
+            ok3, _g = guard(ct.sf2gv, np.asarray(sc, float) + 7.0, np.asarray(fc, float) - 2.0, om, *t)
+            if ok2 and ok3 and not np.array_equal(np.asarray(xyz_c), kept):
+                c.fails.append(fail("inputs", "Ctransform.sf2xyz: the array returned by an earlier call changed when "
+                                    "the same object was used again (results share a work buffer)", what="aliased_result"))
             ok, g = guard(ct.xyz2gv, xyz_c, om, *t)
             if ok:
                 c.g("Ctransform.xyz2gv", g)
